@@ -14,6 +14,7 @@ import (
 	"os"
 	"path/filepath"
 	"sync"
+	"syscall"
 	"testing"
 	"testing/iotest"
 	"time"
@@ -291,4 +292,38 @@ func TestWitnessRateLimiterMapRace(t *testing.T) {
 	go func() { _ = s.Serve(ctx, &fakeListener{max: 2000, hold: make(chan struct{})}) }()
 	time.Sleep(500 * time.Millisecond)
 	t.Logf("WITNESS C03 2000 connections from distinct addresses accepted; see race detector output above/below")
+}
+
+// transientListener fails its first Accept the way accept(2) does when the process is out of file descriptors
+// (EMFILE: a temporary condition caused by many open connections), then blocks.
+type transientListener struct {
+	calls int
+	hold  chan struct{}
+}
+
+func (l *transientListener) Accept() (net.Conn, error) {
+	l.calls++
+	if l.calls == 1 {
+		return nil, &net.OpError{Op: "accept", Net: "tcp", Err: os.NewSyscallError("accept4", syscall.EMFILE)}
+	}
+	<-l.hold
+	return nil, net.ErrClosed
+}
+func (l *transientListener) Close() error   { return nil }
+func (l *transientListener) Addr() net.Addr { return &net.TCPAddr{} }
+
+// #23 C03: a transient Accept error on the transfer port (file descriptors exhausted by a connection flood) must not
+// end ServeFileTransfers — ListenAndServe wraps it in log.Fatal, so returning terminates the whole server process.
+func TestWitnessTransferAcceptErrorEndsServer(t *testing.T) {
+	s, _ := NewServer(WithLogger(NewTestLogger()))
+	ln := &transientListener{hold: make(chan struct{})}
+	done := make(chan error, 1)
+	go func() { done <- s.ServeFileTransfers(context.Background(), ln) }()
+	select {
+	case err := <-done:
+		t.Errorf("WITNESS C03 ServeFileTransfers returned %v after a transient accept error: log.Fatal in ListenAndServe would now terminate the process and every session", err)
+	case <-time.After(500 * time.Millisecond):
+		t.Logf("WITNESS C03 ServeFileTransfers keeps accepting after a transient accept error")
+	}
+	close(ln.hold)
 }
